@@ -7,12 +7,14 @@ From TL Require Import Lib.Base Lib.GenTypes Model.RustSafetyTypes Model.RustSaf
      Model.RustSafety Proofs.RustSafetyWalk.
 
 (* ------------------------------------------------------------------ guard: where a quirk cannot matter *)
-Record gctx := { g_macro : bool; g_forhdr : bool }.
-Definition g0 : gctx := {| g_macro := false; g_forhdr := false |}.
+Record gctx := { g_macro : bool; g_forhdr : bool; g_mwrap : bool }.
+Definition g0 : gctx := {| g_macro := false; g_forhdr := false; g_mwrap := false |}.
+Definition is_mwrap (k : kind) : bool := match k with KMethod _ _ _ name => smem name wrapper_names | _ => false end.
 Definition is_macro (k : kind) : bool := match k with KMacro _ => true | _ => false end.
 Definition gpush (q : rquirks) (g : gctx) (k : kind) (i : nat) : gctx :=
   {| g_macro := g_macro g || (q_macro_opaque q && is_macro k);
-     g_forhdr := g_forhdr g || (q_for_header_in_loop q && match k with KLoop LFor _ => i <? 1 | _ => false end) |}.
+     g_forhdr := g_forhdr g || (q_for_header_in_loop q && match k with KLoop LFor _ => i <? 1 | _ => false end);
+     g_mwrap := g_mwrap g || (q_wrapper_method_form q && is_mwrap k) |}.
 
 Inductive linter := LUnwrap | LClone | LBlocking.
 
@@ -33,13 +35,15 @@ Definition ostr_eqb (a b : option string) : bool :=
    - the code's attribute walk judges the item's attributes as the specification does,
    - a method call sits on the line where its receiver chain starts (or the quirk is off),
    - no clone in the iterator expression of a `for` (or the quirk is off),
-   - the code's call-path table classifies the path as the documentation does. *)
+   - the code's call-path table classifies the path as the documentation does,
+   - no documented blocking call inside a method-form wrapper (or the quirk is off),
+   - no documented blocking call at all while the message quirk is on (its message always differs). *)
 Definition gok (w : linter) (q : rquirks) (g : gctx) (k : kind) (cs : list node) : bool :=
   (negb (g_macro g) || negb (risky w k)) &&
   match k with
   | KFn pre _ _ =>
     Bool.eqb (sib_walk (run_types q test_attr_run_types) test_attr_sibling_type
-                      (attr_hit test_attr_needle attr_is_test_fn (q_test_attr_substring q)) (rev pre)) (fn_is_test pre)
+                      (attr_hit test_attr_needle attr_marks_test_fn (q_test_attr_substring q)) (rev pre)) (fn_is_test pre)
   | KMod pre =>
     Bool.eqb (sib_walk (run_types q cfg_attr_run_types) cfg_attr_sibling_type
                       (attr_hit cfg_attr_needle attr_is_cfg_test (q_cfg_test_literal q)) (rev pre)) (mod_is_test pre)
@@ -52,6 +56,8 @@ Definition gok (w : linter) (q : rquirks) (g : gctx) (k : kind) (cs : list node)
   | KCall _ _ path =>
     match w with
     | LBlocking => ostr_eqb (classify_path (blocking_classes_of q) path) (classify_path spec_blocking_classes path)
+                   && (negb (g_mwrap g) || negb (risky LBlocking k))
+                   && (negb (q_blocking_msg_line q) || negb (risky LBlocking k))
     | _ => true
     end
   | _ => true
@@ -85,7 +91,7 @@ Lemma ty_blocking_call k : String.eqb (node_type k) blocking_call_type = is_call
 
 (* the two frames that are not a node's own frame *)
 Definition blkf (rest : list node) : frame :=
-  {| f_type := block_type; f_pre := []; f_async := false; f_callee := None; f_after := after_of rest |}.
+  {| f_type := block_type; f_pre := []; f_async := false; f_callee := None; f_mname := ""; f_after := after_of rest |}.
 Definition forv : frame := fr for_value_type.
 
 Lemma wrappers_documented : async_wrapper_functions = wrapper_names. Proof. reflexivity. Qed.
@@ -94,7 +100,7 @@ Lemma wrappers_documented : async_wrapper_functions = wrapper_names. Proof. refl
 Definition fT (q : rquirks) (f : frame) : bool := is_test_context q f.
 Definition fL (f : frame) : bool := smem (f_type f) loop_node_types.
 Definition fA (f : frame) : bool := String.eqb (f_type f) async_fn_type && f_async f.
-Definition fW (f : frame) : bool := is_wrapper_call f.
+Definition fW (q : rquirks) (f : frame) : bool := is_wrapper_call q f.
 Definition fB (f : frame) : bool := String.eqb (f_type f) let_block_type.
 Definition fLet (f : frame) : bool := String.eqb (f_type f) let_node_type.
 Definition fStop (f : frame) : bool := smem (f_type f) let_walk_stops.
@@ -118,7 +124,7 @@ Definition R (q : rquirks) (g : gctx) (anc : list frame) (c : ctx) : Prop :=
   inside_test q anc = in_test c /\
   (g_forhdr g = false -> inside_loop anc = in_loop c) /\
   in_async_context anc = in_async c /\
-  inside_wrapper anc = in_wrap c /\
+  (g_mwrap g = false -> inside_wrapper q anc = in_wrap c) /\
   nearest_after anc = later c /\
   let_after anc = in_let c.
 
@@ -131,7 +137,7 @@ Lemma R_cons q g g' anc c f c' :
   in_test c' = fT q f || in_test c ->
   (g_forhdr g' = false -> g_forhdr g = false /\ in_loop c' = fL f || in_loop c) ->
   in_async c' = fA f || in_async c ->
-  in_wrap c' = fW f || in_wrap c ->
+  (g_mwrap g' = false -> g_mwrap g = false /\ in_wrap c' = fW q f || in_wrap c) ->
   later c' = (if fB f then Some (f_after f) else later c) ->
   in_let c' = (if fLet f then later c else if fStop f then None else in_let c) ->
   R q g' (f :: anc) c'.
@@ -139,9 +145,10 @@ Proof.
   intros (RT & RL & RA & RW & RB & RLet) ET EL EA EW EB ELet.
   unfold R. rewrite nearest_after_cons, let_after_cons.
   unfold inside_test, inside_loop, in_async_context, inside_wrapper in *. cbn [existsb].
-  rewrite RT, RA, RW, RB, RLet.
+  rewrite RT, RA, RB, RLet.
   repeat split; try (symmetry; assumption).
-  intros Hg. destruct (EL Hg) as [Hg0 E]. rewrite (RL Hg0). symmetry. exact E.
+  - intros Hg. destruct (EL Hg) as [Hg0 E]. rewrite (RL Hg0). symmetry. exact E.
+  - intros Hg. destruct (EW Hg) as [Hg0 E]. rewrite (RW Hg0). symmetry. exact E.
 Qed.
 
 (* ------------------------------------------------------------------ classification of the pushed frames *)
@@ -161,12 +168,12 @@ Lemma push_m_eq q anc k i rest :
 Proof. destruct k as [pre|pre a nm| |b| |x| |nm| |sl sc ml nm|sl sc p|p| |lk pat| | |nm]; try destruct lk; reflexivity. Qed.
 
 Lemma blkf_cls q rest :
-  fT q (blkf rest) = false /\ fL (blkf rest) = false /\ fA (blkf rest) = false /\ fW (blkf rest) = false /\
+  fT q (blkf rest) = false /\ fL (blkf rest) = false /\ fA (blkf rest) = false /\ fW q (blkf rest) = false /\
   fB (blkf rest) = true /\ fLet (blkf rest) = false /\ fStop (blkf rest) = true /\ f_after (blkf rest) = flat_map (idents false) rest.
 Proof. repeat split. Qed.
 
 Lemma forv_cls q :
-  fT q forv = false /\ fL forv = false /\ fA forv = false /\ fW forv = false /\ fB forv = false /\ fLet forv = false /\ fStop forv = false.
+  fT q forv = false /\ fL forv = false /\ fA forv = false /\ fW q forv = false /\ fB forv = false /\ fLet forv = false /\ fStop forv = false.
 Proof. repeat split. Qed.
 
 Lemma eqb_true_eq a b : Bool.eqb a b = true -> a = b.
@@ -185,11 +192,29 @@ Qed.
 Lemma fA_own k : fA (own_frame k) = match k with KFn _ a _ => a | _ => false end.
 Proof. unfold fA. cbn [f_type own_frame]. rewrite ty_async_fn. now destruct k. Qed.
 
-Lemma fW_own k : fW (own_frame k) = match k with KCall _ _ path => smem (last path "") wrapper_names | _ => false end.
+Lemma fW_own q k :
+  fW q (own_frame k) = match k with
+                       | KCall _ _ path => smem (last path "") wrapper_names
+                       | KMethod _ _ _ name => negb (q_wrapper_method_form q) && smem name wrapper_names
+                       | _ => false
+                       end.
 Proof.
   unfold fW, is_wrapper_call. cbn [f_type own_frame]. rewrite ty_wrapper_call, wrappers_documented.
-  destruct k as [pre|pre a nm| |b| |x| |nm| |sl sc ml nm|sl sc p|p| |lk pat| | |nm]; cbn [is_callk f_callee own_frame andb]; try reflexivity.
+  destruct k as [pre|pre a nm| |b| |x| |nm| |sl sc ml nm|sl sc p|p| |lk pat| | |nm]; cbn [is_callk f_callee f_mname own_frame andb]; try reflexivity.
   destruct p as [|s [|s' r]]; reflexivity.
+Qed.
+
+(* unless the descent enters a method-form wrapper the code does not see, the frame's wrapper test is the documented one *)
+Lemma fW_own_spec q g k i : g_mwrap (gpush q g k i) = false ->
+  fW q (own_frame k) = match k with
+                       | KCall _ _ path => smem (last path "") wrapper_names
+                       | KMethod _ _ _ name => smem name wrapper_names
+                       | _ => false
+                       end.
+Proof.
+  rewrite fW_own. cbn [gpush g_mwrap]. intros H. apply orb_false_iff in H as [_ H].
+  destruct k; try reflexivity. cbn [is_mwrap] in H.
+  destruct (q_wrapper_method_form q); cbn [negb andb] in *; [now rewrite H|reflexivity].
 Qed.
 
 Lemma fL_own k : fL (own_frame k) = is_loop k.
@@ -211,7 +236,12 @@ Lemma own_of_cls w q g k cs i : gok w q g k cs = true -> is_block k = false ->
   (g_forhdr (gpush q g k i) = false ->
    fL f = match k with KLoop LFor _ => 1 <=? i | KLoop _ _ => true | _ => false end) /\
   fA f = match k with KFn _ a _ => a | _ => false end /\
-  fW f = match k with KCall _ _ path => smem (last path "") wrapper_names | _ => false end /\
+  (g_mwrap (gpush q g k i) = false ->
+   fW q f = match k with
+            | KCall _ _ path => smem (last path "") wrapper_names
+            | KMethod _ _ _ name => smem name wrapper_names
+            | _ => false
+            end) /\
   fB f = false /\
   fLet f = is_let k /\
   fStop f = is_fn k.
@@ -222,16 +252,17 @@ Proof.
     destruct lk; try (left; intros pat0; discriminate). right. now exists pat. }
   destruct D as [D|[pat ->]].
   - cbv zeta. rewrite (own_of_not_for q k i D).
-    rewrite (fT_own w q g k cs G), fA_own, fW_own, fL_own, fB_own, fLet_own, fStop_own, NB, orb_false_r.
+    rewrite (fT_own w q g k cs G), fA_own, fL_own, fB_own, fLet_own, fStop_own, NB, orb_false_r.
     repeat split.
-    intros _. destruct k as [pre|pre a nm| |b| |x| |nm| |sl sc ml nm|sl sc p|p| |lk pat| | |nm]; try reflexivity.
-    destruct lk; try reflexivity. now contradiction (D pat).
+    + intros _. destruct k as [pre|pre a nm| |b| |x| |nm| |sl sc ml nm|sl sc p|p| |lk pat| | |nm]; try reflexivity.
+      destruct lk; try reflexivity. now contradiction (D pat).
+    + exact (fW_own_spec q g k i).
   - cbv zeta. unfold own_of.
     destruct ((i <? 1) && negb (q_for_header_in_loop q)) eqn:E.
     + apply andb_true_iff in E as [Ei Eq]. apply negb_true_iff in Eq.
       destruct (forv_cls q) as (T & L & A & W & B & Le & St). rewrite T, L, A, W, B, Le, St.
       repeat split. intros _. apply Nat.ltb_lt in Ei. symmetry. apply Nat.leb_gt. exact Ei.
-    + rewrite (fT_own w q g _ cs G), fA_own, fW_own, fL_own, fB_own, fLet_own, fStop_own.
+    + rewrite (fT_own w q g _ cs G), fA_own, fL_own, fB_own, fLet_own, fStop_own.
       repeat split. cbn [gpush g_forhdr]. intros Hg. apply orb_false_iff in Hg as [_ Hg].
       cbn [is_loop]. destruct (i <? 1) eqn:Ei.
       * cbn [andb] in E. apply negb_false_iff in E. rewrite E in Hg. discriminate.
@@ -245,6 +276,18 @@ Proof. cbn [gpush g_forhdr]. intros H. now apply orb_false_iff in H as [H _]. Qe
 Lemma stmt_pos_false_block k i : is_block k = false -> is_fn k = true -> stmt_pos k i = true.
 Proof. destruct k; try discriminate. intros _ _. reflexivity. Qed.
 
+Lemma gmwrap_mono q g k i : g_mwrap (gpush q g k i) = false -> g_mwrap g = false.
+Proof. cbn [gpush g_mwrap]. intros H. now apply orb_false_iff in H as [H _]. Qed.
+
+Definition wrap_of (k : kind) : bool :=
+  match k with
+  | KCall _ _ path => smem (last path "") wrapper_names
+  | KMethod _ _ _ name => smem name wrapper_names
+  | _ => false
+  end.
+Definition loop_of (k : kind) (i : nat) : bool :=
+  match k with KLoop LFor _ => 1 <=? i | KLoop _ _ => true | _ => false end.
+
 Lemma push_R w q g anc c k cs i rest : R q g anc c -> gok w q g k cs = true ->
   match spec_push c k i rest with
   | None => False
@@ -254,22 +297,25 @@ Lemma push_R w q g anc c k cs i rest : R q g anc c -> gok w q g k cs = true ->
                end
   end.
 Proof.
-  intros HR G. unfold spec_push. rewrite push_m_eq.
+  intros HR G. unfold spec_push. fold (wrap_of k). fold (loop_of k i). rewrite push_m_eq.
   destruct (is_block k) eqn:NB.
   { (* a block expression: one block frame *)
-    destruct k; try discriminate. cbn [stmt_pos has_block hdr Nat.leb andb].
+    destruct k; try discriminate. cbn [stmt_pos has_block hdr Nat.leb andb wrap_of loop_of].
     destruct (blkf_cls q rest) as (T & L & A & W & B & Le & St & Af).
     eapply R_cons; [exact HR|..]; cbn [in_test in_loop in_async in_wrap later in_let];
       rewrite ?T, ?L, ?A, ?W, ?B, ?Le, ?St, ?Af, ?orb_false_r; try reflexivity.
-    intros Hg. split; [exact (gforhdr_mono q g _ i Hg)|reflexivity]. }
+    - intros Hg. split; [exact (gforhdr_mono q g _ i Hg)|reflexivity].
+    - intros Hg. split; [exact (gmwrap_mono q g _ i Hg)|reflexivity]. }
   destruct (own_of_cls w q g k cs i G NB) as (T & L & A & W & B & Le & St). cbv zeta in *.
+  fold (wrap_of k) in W. fold (loop_of k i) in L.
   destruct (is_macro k) eqn:M.
   { destruct k; try discriminate. destruct (q_macro_opaque q) eqn:Q.
     - cbn [gpush g_macro is_macro]. rewrite Q. apply orb_true_r.
     - cbn [stmt_pos has_block andb].
-      eapply R_cons; [exact HR|..]; cbn [in_test in_loop in_async in_wrap later in_let own_of] in *;
-        rewrite ?T, ?A, ?W, ?B, ?Le, ?St, ?orb_false_r; try reflexivity.
-      intros Hg. split; [exact (gforhdr_mono q g _ i Hg)|]. now rewrite (L Hg). }
+      eapply R_cons; [exact HR|..]; cbn [in_test in_loop in_async in_wrap later in_let own_of wrap_of loop_of] in *;
+        rewrite ?T, ?A, ?B, ?Le, ?St, ?orb_false_r; try reflexivity.
+      + intros Hg. split; [exact (gforhdr_mono q g _ i Hg)|]. now rewrite (L Hg).
+      + intros Hg. split; [exact (gmwrap_mono q g _ i Hg)|]. now rewrite (W Hg). }
   assert (E : match k with
               | KMacro _ => if q_macro_opaque q then None else Some (own_frame k :: anc)
               | KBlock => Some (blkf rest :: anc)
@@ -279,30 +325,32 @@ Proof.
   rewrite E. clear E.
   (* the context after the node's own frame *)
   set (c1 := {| in_test := fT q (own_of q k i) || in_test c;
-                in_loop := in_loop c || match k with KLoop LFor _ => 1 <=? i | KLoop _ _ => true | _ => false end;
+                in_loop := in_loop c || loop_of k i;
                 in_async := fA (own_of q k i) || in_async c;
-                in_wrap := fW (own_of q k i) || in_wrap c;
+                in_wrap := in_wrap c || wrap_of k;
                 later := later c;
                 in_let := if is_let k then later c else if is_fn k then None else in_let c |}).
   assert (R1 : R q (gpush q g k i) (own_of q k i :: anc) c1).
   { eapply R_cons; [exact HR|..]; subst c1; cbn [in_test in_loop in_async in_wrap later in_let];
       rewrite ?B, ?Le, ?St; try reflexivity.
-    intros Hg. split; [exact (gforhdr_mono q g _ i Hg)|]. rewrite (L Hg). apply orb_comm. }
+    - intros Hg. split; [exact (gforhdr_mono q g _ i Hg)|]. rewrite (L Hg). apply orb_comm.
+    - intros Hg. split; [exact (gmwrap_mono q g _ i Hg)|]. rewrite (W Hg). apply orb_comm. }
   destruct (stmt_pos k i) eqn:SP.
   - destruct (blkf_cls q rest) as (T' & L' & A' & W' & B' & Le' & St' & Af').
     eapply R_cons; [exact R1|..]; subst c1; cbn [in_test in_loop in_async in_wrap later in_let];
-      rewrite ?T', ?L', ?A', ?W', ?B', ?Le', ?St', ?Af', ?T, ?A, ?W; cbn [orb]; try reflexivity.
+      rewrite ?T', ?L', ?A', ?W', ?B', ?Le', ?St', ?Af', ?T, ?A; cbn [orb]; try reflexivity.
     + apply orb_comm.
     + intros Hg. split; [exact Hg|reflexivity].
     + apply orb_comm.
-    + apply orb_comm.
+    + intros Hg. split; [exact Hg|reflexivity].
   - assert (NF : is_fn k = false).
     { destruct (is_fn k) eqn:F; [|reflexivity]. rewrite (stmt_pos_false_block k i NB F) in SP. discriminate. }
     destruct HR as (RT & RL & RA & RW & RB & RLet). destruct R1 as (RT1 & RL1 & RA1 & RW1 & RB1 & RLet1).
     subst c1. cbn [in_test in_loop in_async in_wrap later in_let] in *.
     unfold R. cbn [in_test in_loop in_async in_wrap later in_let].
-    rewrite RT1, RA1, RW1, RB1, RLet1, T, A, W, NF.
+    rewrite RT1, RA1, RB1, RLet1, T, A, NF.
     repeat split; try apply orb_comm.
     + exact RL1.
+    + exact RW1.
     + destruct k; reflexivity.
 Qed.
